@@ -1,4 +1,4 @@
 CONSTANT Follow = TRUE
 SPECIFICATION Spec
-INVARIANTS Teeth
+INVARIANTS Teeth StagingRootRefused
 CHECK_DEADLOCK FALSE
